@@ -291,6 +291,7 @@ func (l vfAccessLogger) Log(rec instrumentedwriter.LogRecord) { l.w.logs = appen
 func vfNewWorld(o vfOpts) *vfWorld {
 	vfFixtures()
 	vclock.Reset()
+	vfFaultReset()
 	w := &vfWorld{opts: o}
 	dir, err := os.MkdirTemp(vfScratchRoot, "kmvw")
 	vfMust(err)
@@ -565,6 +566,9 @@ func (q vfReq) Build() *http.Request {
 		} else {
 			path += "?" + q.Form.Encode()
 		}
+	}
+	if body == nil {
+		body = http.NoBody // what a real server hands to handlers for a request without body
 	}
 	req, err := http.NewRequest(q.Method, path, body)
 	if err != nil {
